@@ -41,11 +41,18 @@ SelDot == <<46>> \o DotKey(Key)
 
 ParsesToKey(sel) == LET o == ParseModel(<<36>> \o sel, Cfg0, ModelTabs) IN
                     o.cls = "ok" /\ CleanPath(o.ast) = Path("$", <<Nm(Key)>>, <<>>)
-LawBracket == ParsesToKey(SelSQ) /\ ParsesToKey(SelDQ) /\ ParsesToKey(SelEsc)
-LawDot == DotOK => ParsesToKey(SelDot)
+\* The grammar is an INPUT of these laws (Grammar.tla is generated from the repository), so a law can fail because
+\* the repository's grammar changed.  A failure is therefore printed (family "lawfail") instead of stopping TLC:
+\* the case itself still goes to the real library, whose behaviour decides; a failed law without a deviation of
+\* the real library is reported as a problem of the specification (exit 2).
+LawFail(name, sel) == PrintT(ToJson([fam |-> "lawfail", law |-> name, s |-> <<36>> \o sel]))
+LawBracket == /\ (ParsesToKey(SelSQ) \/ LawFail("bracket-single-quoted", SelSQ))
+              /\ (ParsesToKey(SelDQ) \/ LawFail("bracket-double-quoted", SelDQ))
+              /\ (ParsesToKey(SelEsc) \/ LawFail("bracket-all-escaped", SelEsc))
+LawDot == DotOK => (ParsesToKey(SelDot) \/ LawFail("dot", SelDot))
 \* after `..` the dot spelling has no leading dot
 LawRecDot == DotOK => LET o == ParseModel(<<36, 46, 46>> \o DotKey(Key), Cfg0, ModelTabs) IN
-                      o.cls = "ok" /\ CleanPath(o.ast) = Path("$", <<Rec, Nm(Key)>>, <<>>)
+                      (o.cls = "ok" /\ CleanPath(o.ast) = Path("$", <<Rec, Nm(Key)>>, <<>>)) \/ LawFail("dot-after-recursive-descent", <<46, 46>> \o DotKey(Key))
 
 Emit == PrintT(ToJson([fam |-> "key", key |-> Key, sq |-> SelSQ, dq |-> SelDQ, esc |-> SelEsc,
                        dot |-> IF DotOK THEN DotKey(Key) ELSE <<>>, dotok |-> DotOK]))
